@@ -49,6 +49,12 @@ def gen(rng, tier):
             for b in rng_b:
                 for c in rng_s:
                     yield {"segs": [["list", ["slice", a, b, c]]], "doc": arr, "seed": 2}
+    # queries that differ only by blank space INSIDE a quoted member name, one after the other in the same process
+    bdoc = {"a b": 1, "ab": 2, " b": 3, "b": 4, "k 1": 5, "k1": 6, "a": {" b": 7, "b": 8, "b ": 9}, "": 0, " ": 10}
+    for names in (["a b"], ["ab"], [" b"], ["b"], ["k 1"], ["k1"], [" "], [""], ["b", " b"], [" b", "b"], ["k1", "k 1"], ["a b", "ab", "b"]):
+        for pre in ([], ["desc"], [["list", ["name", "a"]]]):
+            for seed in (1, 2):
+                yield {"segs": pre + [["list"] + [["name", n] for n in names]], "doc": bdoc, "seed": seed}
     # integers exactly at the I-JSON limits (RFC 9535 section 2.1: both ends are inside the range), in every position
     lim = 2 ** 53 - 1
     for arr in ([], ["a"], ["a", "b", "c"], {"k": ["a", "b", "c"]}):
@@ -103,6 +109,9 @@ def impl(case):
     except Exception as e:  # noqa: BLE001
         out["matches"] = ["err", exc_name(e)]
     out["doc_unchanged"] = SX.canon(doc) == SX.canon(case["doc"])
+    if isinstance(out["matches"], list) and out["matches"][:1] != ["err"]:
+        from .evalbase import entry_points
+        out["entry_points"] = entry_points(text, case["doc"], reference=["ok", [m[2] for m in out["matches"]]])
     return out
 
 
@@ -121,8 +130,11 @@ def decode(sx, case):
     model = {"text": text_of(case)}
     model["matches"] = decode_matches(fi[1]) if fi[0] == "ok" else ["err", fi[1]]
     model["doc_unchanged"] = True
+    if fi[0] == "ok":
+        model["entry_points"] = "same"        # one evaluator: every route is this function of (query, document)
     sp = {}
     if spec != "na":
+        sp["entry_points"] = "same"
         sp["nodes"] = [[[p if isinstance(p, int) else ["k", p] for p in sx_to_loc(n[0])], SX.canon(SX.sx2j(n[1]))]
                        for n in spec[1]]
     std = sx[7][1] == "true"
@@ -132,7 +144,7 @@ def decode(sx, case):
 def project(case, res, dec=None):
     if "matches" not in res or (res["matches"] and res["matches"][0] == "err"):
         return {"unexpected": res.get("compile") or res.get("matches")}
-    return {"nodes": [[m[0], m[2]] for m in res["matches"]]}
+    return {"nodes": [[m[0], m[2]] for m in res["matches"]], "entry_points": res.get("entry_points", "same")}
 
 
 def nontrivial(case, res):
